@@ -454,12 +454,18 @@ func (l *NativeArrayList[T]) RepeatVal(other Value) (Value, Value) {
 // Return an immutable box pointing to the slot with the given index.
 func (l *NativeArrayList[T]) ImmutableBoxOfVal(index Value) (Value, Value) {
 	b, err := l.boxOf(index)
-	return b.ToImmutableBox().ToValue(), err
+	if err.IsNotUndefined() {
+		return Undefined, err
+	}
+	return b.ToImmutableBox().ToValue(), Undefined
 }
 
 func (l *NativeArrayList[T]) ImmutableBoxOf(index int) (*ImmutableNativeBox[T], Value) {
 	b, err := l.BoxOf(index)
-	return b.ToImmutableBox(), err
+	if err.IsNotUndefined() {
+		return nil, err
+	}
+	return b.ToImmutableBox(), Undefined
 }
 
 // Return a box pointing to the slot with the given index.
